@@ -529,7 +529,8 @@ class ListMatcher(Matcher):
 
             return v
         else:
-            return ''
+            # (Posting values are byte strings)
+            return b''
 
     def value_as(self, astype):
         decoder = self._format.decoder(astype)
